@@ -1,5 +1,6 @@
 import Dashu.Model.Conv.Exact
 import Dashu.Model.Text.Float
+import Dashu.Gen.ConvConsts
 /-
   C06 — `FBig::<R, B>::to_f32 / to_f64` and `Repr::<B>::to_f32 / to_f64` for a base `B ≠ 2`
   (float/src/convert.rs): `Context::<R>::new(24 | 53).convert_base::<B, 2>(repr)` followed by
@@ -15,9 +16,9 @@ open Dashu.Model Dashu.Model.Float
 
 /-- the `debug_assert!(self.significand.bit_len() <= 24)` of `Repr::into_f32_internal` (debug builds; in a
     release build the value is rounded a second time inside `encode`) -/
-def intoSite32 : String := "float/src/convert.rs:595|assertion_failed:_self.significand.bit_len()_<=_24"
+def intoSite32 : String := Dashu.Gen.Conv.into_f32_assert_site      -- regenerated (Tie A): file, line and message
 /-- the `debug_assert!(self.significand.bit_len() <= 53)` of `Repr::into_f64_internal` -/
-def intoSite64 : String := "float/src/convert.rs:653|assertion_failed:_self.significand.bit_len()_<=_53"
+def intoSite64 : String := Dashu.Gen.Conv.into_f64_assert_site
 
 /-- `into_fNN_internal` including its debug assertion on the width of the significand (unreachable after
     `repr_round_ref`, reachable after `convert_base`, whose `repr_div` may return `precision + 1` digits) -/
